@@ -721,6 +721,14 @@ def _child_body(case, stall, emit):
     os.environ["TERM"] = "xterm"
     urwid.set_encoding("utf-8")
     urwid.CanvasCache.clear()
+    if case.get("loop") == "trio":
+        # trio shuffles every batch of runnable tasks with a module-level random.Random() seeded from the OS: make
+        # the schedule a function of the case, so that a case has one verdict
+        import zlib
+
+        import trio._core._run as _trun
+
+        _trun._r.seed(zlib.crc32(json.dumps(case, sort_keys=True, default=str).encode()))
     from urwid.display.raw import Screen
 
     master, slave = os.openpty()
